@@ -125,3 +125,5 @@ func rng(seed int64, salt string) *rand.Rand {
 	}
 	return rand.New(rand.NewSource(seed ^ h))
 }
+
+var errPanic = fmt.Errorf("panic")
